@@ -75,15 +75,8 @@ def run(ck, w):
         ck.ok(o, "users=%s" % sorted(users), instances=len(users))
     else:
         ck.fail(o, "blockdir::block_relpath", "block path users changed", "missing %s" % sorted(need - users))
-    o = ck.ob("C13.1d", "hunk_relpath / subdir_relpath divide the hunk number by HUNKS_PER_SUBDIR; block_relpath takes the first SUBDIR_NAME_CHARS of the hex name")
+    o = ck.ob("C13.1d", "block_relpath takes the first SUBDIR_NAME_CHARS of the block's own hex name as the subdirectory (hunk paths: see C13.1e)")
     good = True
-    for fn in ("index::hunk_relpath", "index::subdir_relpath"):
-        b = lib.bodies.get(fn)
-        divs = [s for bb, j, s in (b.all_assigns() if b else []) if s["rv"]["rk"] == "binop" and s["rv"]["op"] == "Div" and
-                any(op.get("uneval") == "index::HUNKS_PER_SUBDIR" for op in s["rv"]["ops"])]
-        if not divs:
-            good = False
-            ck.fail(o, fn, "subdirectory is not hunk/HUNKS_PER_SUBDIR", "no division by HUNKS_PER_SUBDIR in %s" % fn)
     sb = lib.bodies.get("blockdir::subdir_relpath")
     rt = [s for bb, j, s in (sb.all_assigns() if sb else []) if s["rv"]["rk"] == "agg" and "RangeTo" in (s["rv"].get("adt") or "") and
           any(op.get("uneval") == "blockdir::SUBDIR_NAME_CHARS" for op in s["rv"]["ops"])]
